@@ -67,15 +67,68 @@ def run_overlay_test(repo, pkg_dir, test_src, run_name, timeout=120):
             return -1, "replay timed out"
 
 
-def try_replay(root, repo, pid, obligation, result, smt_file):
+def fp_to_go(v):
+    m = re.fullmatch(r"\(fp #b([01]) #b([01]+) #b([01]+)\)", v.strip())
+    if m:
+        bits = int(m.group(1) + m.group(2) + m.group(3), 2)
+        return "math.Float64frombits(0x%x)" % bits
+    if "+zero" in v:
+        return "0.0"
+    if "-zero" in v:
+        return "math.Copysign(0, -1)"
+    if "+oo" in v:
+        return "math.Inf(1)"
+    if "-oo" in v:
+        return "math.Inf(-1)"
+    if "NaN" in v:
+        return "math.NaN()"
+    return None
+
+
+def str_to_go(v, model, extras):
+    """a Str model value is an abstract element; recover the literal through an interned constant with the same value"""
+    for name, lit in (extras.get("str_consts") or {}).items():
+        if model.get(name) == v:
+            return json.dumps(lit)
+    return None
+
+
+def any_to_go(v, model, extras):
+    v = v.strip()
+    if v == "anil":
+        return "nil"
+    m = re.fullmatch(r"\((aint|aflt|abool|astr) (\d+) (.*)\)", v, re.S)
+    if not m:
+        return None
+    kind, tid, payload = m.group(1), int(m.group(2)), m.group(3).strip()
+    tids = extras.get("type_ids") or []
+    tname = tids[tid - 1] if 0 < tid <= len(tids) else None
+    if kind == "aint":
+        iv = smt_int(payload)
+        if iv is None or tname is None:
+            return None
+        gt = tname.split("/")[-1]
+        return "%s(%d)" % (gt, iv)
+    if kind == "aflt":
+        f = fp_to_go(payload)
+        return None if f is None else "float64(%s)" % f
+    if kind == "abool":
+        return payload
+    if kind == "astr":
+        return str_to_go(payload, model, extras)
+    return None
+
+
+def try_replay(root, repo, pid, obligation, result, smt_file, extras=None):
     tmpl = load_templates(root)
     fn = obligation["func"]
     entry = tmpl.get(fn)
     if not entry:
         return {"confirmed": False, "reason": "no replay template for " + fn + "; solver output attached"}
-    model = parse_model(result.get("model", ""))
     if result["result"] != "sat":
         return {"confirmed": False, "reason": "solver gave no model (" + result["result"] + ")"}
+    model = parse_model(result.get("model", ""))
+    extras = extras or {}
     try:
         src = open(os.path.join(root, "replay_templates", entry["file"])).read()
         args = {}
@@ -83,13 +136,21 @@ def try_replay(root, repo, pid, obligation, result, smt_file):
             v = model.get("p_" + name)
             if v is None:
                 return {"confirmed": False, "reason": f"model has no value for parameter {name}"}
+            g = None
             if kind == "int":
                 iv = smt_int(v)
-                if iv is None:
-                    return {"confirmed": False, "reason": f"cannot read integer {v}"}
-                args[name] = str(iv)
-            else:
-                return {"confirmed": False, "reason": f"parameter kind {kind} not replayable"}
+                g = None if iv is None else str(iv)
+            elif kind == "any":
+                g = any_to_go(v, model, extras)
+            elif kind == "string":
+                g = str_to_go(v, model, extras)
+            elif kind == "float":
+                g = fp_to_go(v)
+            elif kind == "bool":
+                g = v
+            if g is None:
+                return {"confirmed": False, "reason": f"model value of {name} ({v[:80]}) is not replayable as {kind}"}
+            args[name] = g
         test_src = src
         for k, v in args.items():
             test_src = test_src.replace("{{" + k + "}}", v)
